@@ -13,6 +13,7 @@ import Blackbird.Lemmas.LexSpace
 import Blackbird.Lemmas.LexNewline
 import Blackbird.Lemmas.LexTab
 import Blackbird.Lemmas.LexString
+import Blackbird.Lemmas.LexWhole
 
 namespace Blackbird
 
@@ -104,6 +105,18 @@ theorem C18_string_literal_is_one_token (fuel : Nat) (body rest : List Char)
 
 example : (lex "G(\"a # b    c\") | 0").map (·.kind) = [.NAME, .LBRAC, .STR, .RBRAC, .APPLY, .INT, .EOF] := by
   decide +kernel
+
+/-- **At the level of `lex` itself** (`lexL cs` is `lex` on the character list `cs`, with the fuel
+`lex` passes): a text that begins with a comment, or with a run of spaces that is not exactly four long,
+has the tokens of the text behind it. -/
+theorem C18_lex_of_text_behind_comment_or_spaces (s : String) :
+    lex s = lexL s.toList ∧
+    (∀ c rest, (∀ x ∈ c, x ≠ '\n' ∧ x ≠ '\r') → (rest = [] ∨ ∃ x t, rest = x :: t ∧ (x = '\n' ∨ x = '\r')) →
+      (lexL ('#' :: (c ++ rest))).map Tok.kt = (lexL rest).map Tok.kt) ∧
+    (∀ n rest, (rest = [] ∨ ∃ x t, rest = x :: t ∧ (x ≠ ' ' ∧ x ≠ '\t')) → n + 1 ≠ 4 →
+      (lexL (' ' :: (List.replicate n ' ' ++ rest))).map Tok.kt = (lexL rest).map Tok.kt) :=
+  ⟨rfl, fun c rest hc hr => lexL_leading_comment c rest hc hr,
+   fun n rest hr hn => lexL_leading_spaces n rest hr hn⟩
 
 /-- non-vacuity: a comment with quotes, hashes and non-ASCII text before a CRLF -/
 example : (∀ x ∈ "\"q0\" # é | 1".toList, x ≠ '\n' ∧ x ≠ '\r') ∧
